@@ -242,18 +242,19 @@ theorem roundV_canonical {f : Fmt} (v : Valid f) (man : Nat) (exp : Int) (q : Na
 
 /-- **roundV_nearest**: no member `m'·2^e'` of the format (`m' < 2^p`, `e' ≥ emin`; any exponent, so also
 beyond the largest finite number) is strictly closer to `x = man·2^exp` than the rounding result.
-All three values are written in units of `2^E` for an arbitrary common `E` below the three exponents. -/
+All three values are written as integers in units of `2^E` (`dyVal m e E = m·2^(e-E)`) for an arbitrary
+common `E` below the three exponents. -/
 theorem roundV_nearest {f : Fmt} (v : Valid f) (man : Nat) (exp : Int) (q : Nat) (e : Int)
     (h : roundV f man exp = .fin q e) (m' : Nat) (e' : Int) (hm' : m' < 2 ^ f.p) (he' : f.emin ≤ e')
-    (E : Int) (h1 : E ≤ exp) (h2 : E ≤ e) (h3 : E ≤ e') :
-    |dyVal man exp E - dyVal q e E| ≤ |dyVal man exp E - dyVal m' e' E| :=
+    (E : Int) (h1 : E ≤ exp) (h2 : E < e) (h3 : E ≤ e') :
+    (dyVal man exp E - dyVal q e E).natAbs ≤ (dyVal man exp E - dyVal m' e' E).natAbs :=
   roundV_nearest' v man exp q e h m' e' hm' he' E h1 h2 h3
 
 /-- **roundV_tie_even**: if another member of the format is exactly as close, the result's significand is even. -/
 theorem roundV_tie_even {f : Fmt} (v : Valid f) (man : Nat) (exp : Int) (q : Nat) (e : Int)
     (h : roundV f man exp = .fin q e) (m' : Nat) (e' : Int) (hm' : m' < 2 ^ f.p) (he' : f.emin ≤ e')
-    (E : Int) (h1 : E ≤ exp) (h2 : E ≤ e) (h3 : E ≤ e')
-    (hd : |dyVal man exp E - dyVal q e E| = |dyVal man exp E - dyVal m' e' E|)
+    (E : Int) (h1 : E ≤ exp) (h2 : E < e) (h3 : E ≤ e')
+    (hd : (dyVal man exp E - dyVal q e E).natAbs = (dyVal man exp E - dyVal m' e' E).natAbs)
     (hne : dyVal q e E ≠ dyVal m' e' E) : q % 2 = 0 :=
   roundV_tie_even' v man exp q e h m' e' hm' he' E h1 h2 h3 hd hne
 
